@@ -8,12 +8,12 @@ HERE = os.path.dirname(os.path.dirname(os.path.abspath(__file__)))
 # id -> (technique, level text, level note, design ref)
 CHECKS = {
     "C01": ("property-based differential testing against an independent ICWS'94 reference step (rapid), stratified to all 7616 instruction forms",
-            "Generated search: every cycle of generated single-warrior whole-core programs is compared cell-for-cell and queue-for-queue with a reference interpreter written from the ICWS'94 draft; all 7616 opcode/modifier/mode forms are executed at least k times per run. No counterexample among N cases; not a proof.",
+            "Generated search: every cycle of generated single-warrior whole-core programs is compared cell-for-cell and queue-for-queue with a reference interpreter written from the ICWS'94 draft; all 7616 opcode/modifier/mode forms are executed at least k times per run; a long-run sub-property (40..7000 cycles, process limits up to 8000) and a rare class of cores above 2^16 cells with wide operand values. No counterexample among N cases; not a proof.",
             "Trusts the reference interpreter (harness/ref) as a faithful reading of the ICWS'94 draft; core sizes sampled (3..64 dense, up to 8192 sparse).",
             "DESIGN.md section 4, C01"),
 
     "C02": ("property-based differential testing of whole battles against a reference scheduler (rapid), plus Run-vs-RunCycle relation",
-            "Generated search: random 1..4-warrior battles are stepped next to a reference MARS scheduler; return values, executed (warrior,pc) lists, queues, alive flags, counters and the whole core are compared after every cycle, and Run() on a fresh simulator must reach the same final state.",
+            "Generated search: random 1..4-warrior battles are stepped next to a reference MARS scheduler; return values, executed (warrior,pc) lists, queues, alive flags, counters and the whole core are compared after every cycle, a second round after Reset on the same simulator, and Run() on a fresh simulator must reach the same final state; rare scale classes (cores above 2^16 cells, melees of up to 100 warriors, offsets near 2^64, thousands of cycles with a splitter).",
             "Trusts harness/ref (scheduler written from the property statement and the ICWS'94 draft). Cores mostly 3..60.",
             "DESIGN.md section 4, C02"),
 
@@ -22,7 +22,7 @@ CHECKS = {
             "Trusts harness/rc MeaningOf (textual EQU substitution, own expression evaluator, ICWS'94 default-modifier table with NOP->B, '88 table). Results outside int32 are discarded (C07 owns that boundary).",
             "DESIGN.md section 4, C03"),
     "C05": ("property-based robustness testing in an isolated, killable worker process with goroutine-leak inspection (rapid); native fuzzing in the thorough tier",
-            "Generated search over valid, mutated, soup and adversarial inputs; every case must return within a deadline, not panic or kill the process, return error xor warrior, and leave no gmars goroutine behind; hangs are observable and shrinkable because the worker is a separate process.",
+            "Generated search over valid, mutated, soup and adversarial inputs; every case must return within a deadline, not panic or kill the process, return error xor warrior, and leave no gmars goroutine behind; hangs are observable and shrinkable because the worker is a separate process; a quarter of the cases run 2..8 simultaneous assemblies; a rare class of very large FOR expansions with proportional deadline; a scaling sub-property compares n with 5n for structured families.",
             "Time bound decided as a 5 s deadline for inputs whose own expansion estimate is <= 2*10^4 tokens (larger inputs discarded); polynomial slowness below the deadline is not detected.",
             "DESIGN.md section 4, C05"),
     "C06": ("property-based testing of a validity predicate over accepted outputs (rapid); native fuzzing in the thorough tier",
@@ -46,11 +46,11 @@ CHECKS = {
             "The no-silent-skip oracle uses the harness's own notion of blank/comment/directive lines.",
             "DESIGN.md section 4, C10"),
     "C14": ("property-based concurrency testing under the Go race detector, repeatability and copy-isolation relations (rapid)",
-            "Generated job sets run sequentially and then on 1/2/8/32 goroutines in a -race build: results must be equal and the detector silent; caller-side mutation after AddWarrior must not show through.",
+            "Generated job sets run sequentially and then on 1/2/8/32 goroutines in a -race build: results must be equal and the detector silent; caller-side mutation after AddWarrior must not show through; further sub-properties: several simulators used in turns against their own models (interleaved), repeated assembly of one text (repeat), a few assemblies compared with a fresh process (history independence).",
             "Schedules are those the Go scheduler produces; the race detector only sees accesses that execute.",
             "DESIGN.md section 4, C14"),
     "C16": ("round-trip property testing: LoadCode listing read back by an independent listing reader (rapid)",
-            "Generated warriors from the loader/assembler of the same dialect; Warrior.LoadCode() parsed with the pMARS listing conventions must denote the same instructions (fields modulo M) and entry point.",
+            "Generated warriors from the loader/assembler of the same dialect; Warrior.LoadCode() parsed with the pMARS listing conventions must denote the same instructions (fields modulo M) and entry point; the same through `gmars -A` of a freshly built command line tool.",
             "Trusts harness/rc ReadListing.",
             "DESIGN.md section 4, C16"),
     "C17": ("property-based differential testing of the built CLI against the reference MARS (rapid)",
@@ -74,7 +74,7 @@ CHECKS = {
             "Trusts the model of the documented state machine (harness/ref Battle + props/c13). RunCycle on a decided several-warrior battle may execute the survivor or do nothing (both accepted).",
             "DESIGN.md section 4, C13"),
     "C15": ("property-based testing of the report stream against the reference event stream (rapid)",
-            "Generated battles with a recording listener and the bundled StateRecorder: per-task changed cells subset of reported subset of reference may-touch; TaskPop sequence equals reference; terminate reports iff deaths; recorder equals the last-operation fold of the reference events; empty after Reset.",
+            "Generated battles with a recording listener and the bundled StateRecorder: per-task changed cells subset of reported subset of reference may-touch; TaskPop sequence equals reference; terminate reports iff deaths; recorder equals the last-operation fold of the reference events (with and without read recording); empty after Reset, also after hundreds of rounds on one recorder.",
             "Trusts harness/ref event stream; cores <= 64 so the listener can snapshot the core at every task.",
             "DESIGN.md section 4, C15"),
 }
